@@ -301,11 +301,12 @@ func (p *printVisitor) EnterOperationDefinition(ref int) {
 	hasName := p.document.OperationDefinitions[ref].Name.Length() > 0
 	hasVariables := p.document.OperationDefinitions[ref].HasVariableDefinitions
 	hasDirectives := p.document.OperationDefinitions[ref].HasDirectives
+	hasDescription := p.document.OperationDefinitions[ref].Description.IsDefined
 
 	switch p.document.OperationDefinitions[ref].OperationType {
 	case ast.OperationTypeQuery:
 		// the query keyword may only be omitted for a bare selection set
-		if hasName || hasVariables || hasDirectives {
+		if hasName || hasVariables || hasDirectives || hasDescription {
 			p.write(literal.QUERY)
 		}
 	case ast.OperationTypeMutation:
